@@ -38,6 +38,13 @@ def other_row(job):
         "logical_and": lambda: ndx.logical_and(x, x), "sin": lambda: ndx.sin(x),
         "where_cond": lambda: ndx.where(x, 1, 2),
     }
+    if "@" in fn:
+        # the same function with an explicit accumulator / result dtype: a keyword must not open a side door
+        base, acc = fn.split("@")
+        kw = {"dtype": impl.dt(acc)}
+        if base == "cumulative_sum":
+            kw["axis"] = 0
+        return tables.outcome(lambda: getattr(ndx, base)(x, **kw))
     return tables.outcome(calls[fn])
 
 
@@ -54,6 +61,7 @@ NUMERIC_ONLY = ["sum", "prod", "mean", "var", "std", "max", "min", "cumulative_s
 def other_law(fn, d):
     """'raises' | 'free' for the second table (domains from the Array API standard)."""
     core = d[1:] if d.startswith("n") and d != "n" and d[1:] in ALL_DTYPES else d
+    fn = fn.split("@")[0]
     if d == "struct":
         return "raises"        # the user dtype implements nothing
     if core == "utf8":
@@ -86,6 +94,7 @@ def run(ctx: common.Ctx):
     fns = ["sum", "prod", "mean", "var", "std", "max", "min", "cumulative_sum", "argmax", "argmin",
            "sort", "argsort", "matmul", "tril", "triu", "clip", "all", "any", "abs_method",
            "neg_method", "invert_method", "add", "equal", "less", "logical_and", "sin", "where_cond"]
+    fns += [f"{f}@{acc}" for f in ("sum", "prod", "cumulative_sum", "var", "std") for acc in ("float64", "int64", "float32")]
     jobs = [(fn, d, mode) for fn in fns for d in ALL_DTYPES + ["struct"] for mode in ("lazy", "eager")]
     if ctx.tier == "quick":
         jobs = [j for j in jobs if j[2] == "lazy" or j[1] in ("utf8", "nutf8", "bool", "nbool", "struct", "int32", "float64")]
